@@ -15,7 +15,7 @@ if [ $TESTS = 1 ]; then
   (cd "$D" && timeout 900 /venv/bin/python -m pytest -q -p no:cacheprovider -x 2>&1 | tail -2 | sed "s/^/  tests[$NAME]: /")
 fi
 mkdir -p "$D/_replays"
-cd /verif && VERIF_REPO="$D" VERIF_REPLAYS="$D/_replays" timeout 1800 ./check "$PROP" --no-evidence --no-selftest "$@" > "$D/_out.txt" 2>&1
+cd /verif && VERIF_REPO="$D" VERIF_REPLAYS="$D/_replays" timeout 1800 ./check "$PROP" --no-evidence "$@" > "$D/_out.txt" 2>&1
 RC=$?
 echo "MUTANT $NAME property=$PROP exit=$RC $(grep -c '^VIOLATION' "$D/_out.txt") violation line(s)"
 grep -E '^(VIOLATION|HARNESS|KNOWN|C[0-9]+:)' "$D/_out.txt" | head -5 | cut -c1-400 | sed 's/^/    /'
